@@ -199,9 +199,11 @@ func (da *doubleArray) lookup(path string, params []Param, idx int) (*node, []Pa
 			indices = append(indices, (uint64(i)<<indexOffset)|(uint64(idx)&indexMask))
 		}
 		c := path[i]
-		if c == ParamCharacter || c == WildcardCharacter || c == TerminationCharacter {
+		if c == ParamCharacter || c == WildcardCharacter || c == TerminationCharacter || c == 0 {
 			// These bytes label the special edges of the array (parameter, wildcard, end of key).
 			// In a looked-up path they are ordinary data and must never be followed as an edge.
+			// The byte 0 is the CHECK value of an unused cell: following it would walk into
+			// cells that belong to no key.
 			goto BACKTRACKING
 		}
 		if idx = nextIndex(da.bc[idx].Base(), c); idx >= len(da.bc) || da.bc[idx].Check() != c {
